@@ -400,8 +400,10 @@ func (c *channel) processCommand(ctx context.Context, sender RequestCommandSende
 	respChan := make(chan *ResponseCommand, 1)
 	c.processingCmds[reqCmd.ID] = respChan
 	c.processingCmdsMu.Unlock()
+	verifGate(c, "pc.registered", reqCmd)
 
 	defer func() {
+		verifGate(c, "pc.cleanup", reqCmd)
 		c.processingCmdsMu.Lock()
 		delete(c.processingCmds, reqCmd.ID)
 		c.processingCmdsMu.Unlock()
@@ -432,10 +434,12 @@ func (c *channel) trySubmitCommandResult(respCmd *ResponseCommand) bool {
 	if !ok {
 		return false
 	}
+	verifGate(c, "rcv.lookedUp", respCmd)
 
 	c.processingCmdsMu.Lock()
 	delete(c.processingCmds, respCmd.ID)
 	c.processingCmdsMu.Unlock()
+	verifGate(c, "rcv.deleted", respCmd)
 
 	respChan <- respCmd
 	return true
